@@ -33,6 +33,25 @@ pub fn watchdog_begin(case: &str) {
 pub fn watchdog_end() {
     *WATCH.lock().unwrap() = None;
 }
+/// called by the counting allocator for an absurd request: the case in progress (if any) is the failing input
+pub fn report_huge_alloc(size: usize) {
+    static ONCE: std::sync::atomic::AtomicBool = std::sync::atomic::AtomicBool::new(false);
+    if ONCE.swap(true, std::sync::atomic::Ordering::SeqCst) {
+        return;
+    }
+    if let Ok(g) = WATCH.try_lock() {
+        if let Some((_, case)) = g.as_ref() {
+            if let Ok(path) = WATCH_OUT.try_lock() {
+                let p = path.replace(".hang.case", ".alloc.case");
+                let _ = std::fs::write(&p, format!("{size}\n{case}"));
+                println!("ALLOCATION of {size} bytes requested: {p}");
+                std::process::exit(87);
+            }
+        }
+    }
+    ONCE.store(false, std::sync::atomic::Ordering::SeqCst);
+}
+
 fn start_watchdog(out_dir: &str, engine: &str) {
     *WATCH_OUT.lock().unwrap() = format!("{out_dir}/{engine}.hang.case");
     std::thread::spawn(|| loop {
